@@ -92,6 +92,10 @@ class XsdFacet(XsdComponent):
         reason = _("invalid type {!r} provided: {}").format(type(value), str(error))
         raise XMLSchemaValidationError(self, value, reason) from None
 
+    def out_of_range_error(self, error: OverflowError, value: Any) -> None:
+        reason = _("value out of the range supported for comparison: {}").format(str(error))
+        raise XMLSchemaValidationError(self, value, reason) from None
+
     @property
     def base_facet(self) -> Optional['XsdFacet']:
         """
@@ -320,6 +324,8 @@ class XsdMinInclusiveFacet(XsdFacet):
                 raise XMLSchemaValidationError(self, value, reason)
         except TypeError as err:
             self.invalid_type_error(err, value)
+        except OverflowError as err:
+            self.out_of_range_error(err, value)
 
 
 class XsdMinExclusiveFacet(XsdFacet):
@@ -364,6 +370,8 @@ class XsdMinExclusiveFacet(XsdFacet):
                 raise XMLSchemaValidationError(self, value, reason)
         except TypeError as err:
             self.invalid_type_error(err, value)
+        except OverflowError as err:
+            self.out_of_range_error(err, value)
 
 
 class XsdMaxInclusiveFacet(XsdFacet):
@@ -402,6 +410,8 @@ class XsdMaxInclusiveFacet(XsdFacet):
                 raise XMLSchemaValidationError(self, value, reason)
         except TypeError as err:
             self.invalid_type_error(err, value)
+        except OverflowError as err:
+            self.out_of_range_error(err, value)
 
 
 class XsdMaxExclusiveFacet(XsdFacet):
@@ -446,6 +456,8 @@ class XsdMaxExclusiveFacet(XsdFacet):
                 raise XMLSchemaValidationError(self, value, reason)
         except TypeError as err:
             self.invalid_type_error(err, value)
+        except OverflowError as err:
+            self.out_of_range_error(err, value)
 
 
 class XsdTotalDigitsFacet(XsdFacet):
